@@ -54,7 +54,15 @@ func simGenFaults(t *rapid.T, label string, classes []string, max int) []simFaul
 	return out
 }
 
+type simInline struct {
+	At   int    // yield number within the round (1-based)
+	Kind string // new | dup-inseq | dup-acked | dup-inline
+	Arg  int
+}
+
 type simHistOpts struct {
+	Inline      bool // generate submissions that run concurrently with sequencing (at yield points)
+	KillAfter   bool // sometimes kill the process right after a round (with cache rollback variants)
 	MaxRounds   int
 	ClockFaults bool
 	Faults      bool
@@ -66,6 +74,7 @@ type simHistOpts struct {
 type simHistStats struct {
 	Rounds, Commits, Restarts, Crashes, FaultsFired, ClockAnoms, TileCross, MultiTile, EmptyRounds int
 	FatalRounds, FailedPools, LoadFailures, Acks                                                 int
+	InlineRun, InlineDupInSeq, InlineDupAcked, InlineCacheHits, KillsAfterAck, CacheRollbacks, EarlyRelease int
 	Sizes                                                                                        []int64
 	Desc                                                                                         []string
 }
@@ -123,6 +132,72 @@ type simHist struct {
 	// hooks for the specific checks
 	afterRound func(res *simRoundResult) error
 	afterLoad  func() error
+	snaps      []simCacheSnap
+	inlineSubs []*simEntry
+}
+
+// installYield arms the yield hook for the coming round: it detects an early
+// release of the pool's waiters at operation granularity and runs the
+// generated inline submissions (concurrent submitters scheduled at that instant).
+func (h *simHist) installYield(inl []simInline) {
+	s := h.s
+	in := h.in
+	count := 0
+	h.inlineSubs = nil
+	s.w.yield = func(p *simProc, op *simOp) {
+		if p != in.p || p.phase != "round" || p.dead {
+			return
+		}
+		count++
+		if p.pool != nil {
+			select {
+			case <-p.pool.done:
+				// the waiters of the pool being sequenced were released before the round finished
+				n := len(s.acks)
+				s.poll(in, nil)
+				if len(s.acks) > n {
+					h.st.EarlyRelease++
+				}
+			default:
+			}
+		}
+		for _, a := range inl {
+			if a.At != count {
+				continue
+			}
+			var e *simEntry
+			switch a.Kind {
+			case "new":
+				e = simMakeEntry(h.nextID, h.shapeOf(h.nextID))
+				h.nextID++
+			case "dup-inseq":
+				if p.pool == nil || len(p.pool.pendingLeaves) == 0 {
+					continue
+				}
+				e = &simEntry{ID: -1, Shape: "dup-inseq", P: p.pool.pendingLeaves[a.Arg%len(p.pool.pendingLeaves)]}
+				h.st.InlineDupInSeq++
+			case "dup-acked":
+				if len(s.acks) == 0 {
+					continue
+				}
+				e = s.acks[a.Arg%len(s.acks)].Entry
+				h.st.InlineDupAcked++
+			case "dup-inline":
+				if len(h.inlineSubs) == 0 {
+					continue
+				}
+				e = h.inlineSubs[a.Arg%len(h.inlineSubs)]
+			}
+			h.inlineSubs = append(h.inlineSubs, e)
+			wt := s.submit(simInlineCtx(context.Background()), in, e, false)
+			h.st.InlineRun++
+			if wt.Src == "cache" {
+				h.st.InlineCacheHits++
+			}
+			// immediate answers (cache hits, errors) are observed at this very instant
+			s.poll(in, nil)
+		}
+	}
 }
 
 func (h *simHist) shapeOf(id int) int {
@@ -240,7 +315,22 @@ func (h *simHist) run(t *rapid.T) error {
 			faults = simGenFaults(t, "fault", simFaultClassesRound, 3)
 		}
 		before := len(s.commits)
+		var inl []simInline
+		if h.opts.Inline {
+			for k := rapid.IntRange(0, 4).Draw(t, "inlineN"); k > 0; k-- {
+				inl = append(inl, simInline{At: rapid.IntRange(1, 14).Draw(t, "inlineAt"),
+					Kind: rapid.SampledFrom([]string{"new", "dup-inseq", "dup-inseq", "dup-acked", "dup-inline"}).Draw(t, "inlineKind"),
+					Arg:  rapid.IntRange(0, 1000).Draw(t, "inlineArg")})
+			}
+		}
+		var preSnap simCacheSnap
+		if h.opts.KillAfter {
+			preSnap = s.w.cacheSnapshot()
+			h.snaps = append(h.snaps, preSnap)
+		}
+		h.installYield(inl)
 		res := s.round(h.in, faults)
+		s.w.yield = nil
 		h.st.Rounds++
 		h.st.FaultsFired += len(res.Fired)
 		h.st.Acks += len(res.Acks)
@@ -278,6 +368,27 @@ func (h *simHist) run(t *rapid.T) error {
 				h.st.FailedPools++
 			}
 			restart = rapid.IntRange(0, 5).Draw(t, "restart") == 0
+			if h.opts.KillAfter && len(res.Acks) > 0 {
+				switch rapid.IntRange(0, 5).Draw(t, "killAfterAck") {
+				case 0: // the process dies right after acknowledging
+					restart = true
+					h.st.KillsAfterAck++
+				case 1: // ... and the un-synced cache transaction of this round is lost (power loss)
+					restart = true
+					h.st.KillsAfterAck++
+					h.st.CacheRollbacks++
+					h.in.close()
+					s.w.cacheRestore(preSnap)
+					h.st.descf("killed after ack, cache rolled back to before the round")
+				case 2: // ... and the cache is rolled back to an older snapshot
+					restart = true
+					h.st.KillsAfterAck++
+					h.st.CacheRollbacks++
+					h.in.close()
+					s.w.cacheRestore(h.snaps[rapid.IntRange(0, len(h.snaps)-1).Draw(t, "snapIdx")])
+					h.st.descf("killed after ack, cache rolled back to an older snapshot")
+				}
+			}
 		}
 		if restart {
 			if err := h.reload(t, h.opts.Faults); err != nil {
